@@ -264,8 +264,9 @@ def run(tier):
 
     ck = Check("C03", tier)
     ck.assumptions += ASSUMPTIONS
-    br = common.build("C03", models=("errorsalg",))
-    ck.proofs(br)
+    from . import casync
+    br = common.build("C03", models=("errorsalg", "async"), extra_targets=("theories/Properties/C03async.vo",))
+    ck.proofs(br, extra_files=("C03async",))
     quick = tier == "quick"
     rng = ck.rng
     schema = build_schema(SDL)
@@ -413,6 +414,11 @@ def run(tier):
             if kept != out[1:1 + out[0]]:
                 ck.violation(f"collected-errors:{seq!r}", f"CollectedErrors.add keeps errors {kept}, model keeps {out[1:1 + out[0]]} for positions {seq}",
                              {"relation": "CollectedErrors.add = model", "adds": seq, "impl": kept, "model": out})
+    # the scheduling model Exec/Async.v (confluence proved) vs execute() under the controlled loop
+    rule0 = ck.rule
+    casync.core(ck, tier, br.ok)
+    ck.extra["async_rule"] = ck.rule
+    ck.rule = rule0 + " (scheduling model) see coverage.async_rule"
     return ck.finish()
 
 
